@@ -3,7 +3,9 @@ package verifsim
 import (
 	"encoding/json"
 	"fmt"
+	"hash/fnv"
 	"runtime"
+	"sort"
 	"strings"
 	"testing"
 	"testing/synctest"
@@ -24,6 +26,10 @@ func Generate(prop string, seed uint64) *Scenario {
 		return GenC16Session(seed)
 	case "C11":
 		return GenTT(seed)
+	case "C19":
+		return GenBook(seed)
+	case "C20":
+		return GenCache(seed)
 	case "C14":
 		if seed%4 == 3 {
 			return GenUciSession(prop, seed)
@@ -39,6 +45,40 @@ func RunScenario(t *testing.T, sc *Scenario) *RunResult {
 	start := time.Now()
 	if err := ResetEngineGlobals(sc.Config); err != nil {
 		res.Harness = err.Error()
+		return res
+	}
+	if sc.Kind == "cache" {
+		// no schedule or clock to control: runs outside the bubble (see book.go)
+		out := RunCache(sc)
+		res.Violations = append(res.Violations, out.Violations...)
+		res.Faults = out.Faults
+		keys := make([]string, 0, len(out.Distinct))
+		for k := range out.Distinct {
+			keys = append(keys, k)
+		}
+		sort.Strings(keys)
+		res.Signature = fmt.Sprintf("%d:%s", out.CacheLen, strings.Join(keys, ","))
+		if len(res.Signature) > 200 {
+			h := fnv.New64a()
+			h.Write([]byte(res.Signature))
+			res.Signature = fmt.Sprintf("%016x", h.Sum64())
+		}
+		res.TraceHash = res.Signature
+		res.NonTrivial = out.Cases > 1
+		res.count("cache_cases", int64(out.Cases))
+		res.count("cache_cases_undecodable", int64(out.Undecodable))
+		res.count("cache_bytes", int64(out.CacheLen))
+		if out.Exhaustive {
+			res.count("exhaustive_prefix_books", 1)
+		}
+		res.count("distinct_damage_cases", int64(len(out.Distinct)))
+		res.WallMs = time.Since(start).Milliseconds()
+		for _, v := range res.Violations {
+			if v.Class == "init_hangs_lock_held" {
+				// the package level lock stays held in this process
+				res.ExitAfter = true
+			}
+		}
 		return res
 	}
 	expectDeadlock := false
@@ -68,6 +108,23 @@ func RunScenario(t *testing.T, sc *Scenario) *RunResult {
 			case "game":
 				out := RunGame(sc)
 				finishGame(sc, out, res)
+			case "book":
+				out := RunBook(sc)
+				res.Violations = append(res.Violations, out.Violations...)
+				res.Faults, res.Probes = out.Faults, out.Probes
+				res.Signature = strings.Join(out.GrantHash, "+")
+				if len(out.GrantHash) > 0 {
+					res.Signature = out.GrantHash[0]
+				}
+				res.NonTrivial = out.Builds > 1
+				res.TraceHash = fmt.Sprintf("%016x/%s", out.Hash, strings.Join(out.GrantHash, "+"))
+				res.SimNs = out.Sim.Now()
+				res.count("builds", int64(out.Builds))
+				res.count("entries", int64(out.Entries))
+				res.count("lock_grants", int64(len(out.Sim.BookGrants)))
+				if out.Sim.Reentry {
+					res.Harness = "slot allocator re-entered"
+				}
 			case "tt":
 				out := RunTT(sc)
 				res.Violations = append(res.Violations, out.Violations...)
